@@ -1,6 +1,7 @@
 import FH.Cui
 import FH.World
 import FH.RuleLemmas
+import FH.PeMem
 /-!
 # C14 — Corrupt or hostile unwind data never panics framehop's own code
 
@@ -240,5 +241,58 @@ example :
         stubs := (5, 2), stubHelper := (0, 0), text := some (0x1004, [0x55, 0x48]) }
     (archX64.cui d 0x1005 true).isSome = true ∧ (archA64.cui d 0x8fff true).isSome = true := by
   decide
+
+
+/-! ## PE: RVA -> section memory on inconsistent section descriptions
+
+`memory_at_rva` is handed whatever RVA ranges and data lengths the module supplies - ranges that
+are empty, inverted, larger than the data, overlapping each other. The model has no panic outcome
+at all here; what has to be shown is that the slice it describes is always inside the data (the
+Rust code slices with `data.get(offset..)`; a model answer outside the data would mean the
+correspondence run compares against a result the Rust code cannot produce). -/
+
+/-- Whatever the section description, a returned slice `data[off..]` lies inside the data, starts
+at the byte the RVA addresses, and the RVA lies in the section's range. -/
+theorem C14_pe_section_slice_is_within_data (s : Sect) (addr off len : Nat)
+    (h : memAtRva s addr = some (off, len)) :
+    off + len = s.len ∧ off = addr - s.start ∧ s.start ≤ addr ∧ addr < s.stop := by
+  have := memAtRva_some h
+  exact ⟨this.2.2.2, this.2.2.1, this.1, this.2.1⟩
+
+/-- Empty and inverted ranges (`end <= start`) never yield memory; neither does an RVA whose
+offset lies beyond the supplied data. -/
+theorem C14_pe_degenerate_ranges_yield_nothing (s : Sect) (addr : Nat) :
+    (s.stop ≤ s.start → memAtRva s addr = none) ∧
+    (s.len < addr - s.start → memAtRva s addr = none) := by
+  constructor
+  · intro h
+    unfold memAtRva
+    have : ¬(s.start ≤ addr ∧ addr < s.stop) := by omega
+    simp [this]
+  · intro h
+    unfold memAtRva
+    split
+    · simp only []
+      have : ¬(addr - s.start ≤ s.len) := by omega
+      simp [this]
+    · rfl
+
+/-- UNWIND_INFO is looked for in `.rdata` first and then in `.xdata`; a section that contains the
+RVA but whose data is too short is passed over, it does not end the search. -/
+theorem C14_pe_unwind_info_section_order (r x : Sect) (addr : Nat) :
+    (∀ o l, memAtRva r addr = some (o, l) → unwindInfoMemAtRva (some r) (some x) addr = some (0, o, l)) ∧
+    (memAtRva r addr = none → ∀ o l, memAtRva x addr = some (o, l) →
+      unwindInfoMemAtRva (some r) (some x) addr = some (1, o, l)) ∧
+    (memAtRva r addr = none → memAtRva x addr = none →
+      unwindInfoMemAtRva (some r) (some x) addr = none) := by
+  refine ⟨?_, ?_, ?_⟩
+  · intro o l h; simp [unwindInfoMemAtRva, h]
+  · intro h o l h2; simp [unwindInfoMemAtRva, h, h2]
+  · intro h h2; simp [unwindInfoMemAtRva, h, h2]
+
+example : memAtRva ⟨0x3000, 0x3100, 0x80⟩ 0x3080 = some (0x80, 0) ∧
+    memAtRva ⟨0x3000, 0x3100, 0x80⟩ 0x3081 = none ∧
+    unwindInfoMemAtRva (some ⟨0x3000, 0x3100, 0x80⟩) (some ⟨0x3080, 0x3200, 0x180⟩) 0x3081 =
+      some (1, 1, 0x17f) := by decide
 
 end FH
